@@ -15,6 +15,9 @@
               MessageTransformSubscriberDecorator-wrapped subscriber built by the application, shared by all handlers with that g
               P<ids>  AddPublisherDecorators(ids...)      S<ids>      AddSubscriberDecorators(ids...)
               G<item>+<item>…  AddPlugin: a RouterPlugin that, when Run executes it, registers item ∈ R<ids> | P<ids> | S<ids>
+              P<ids>! / S<ids>!  as P / S, but the last decorator of the call returns an error the first time it is applied
+                               (RunHandlers fails and is called again until it succeeds)
+              T<h>             handler h .Stop(), wait for Stopped(): the handler leaves the router (its name is not reused)
               X                the application edits every slice it has passed so far in a `xs...` call (all registrations
                                are made from caller-owned slices with spare capacity): overwrites every element with a
                                foreign recorder (ids >= 9000), appends one on the spare capacity, hands the result to a
@@ -85,10 +88,18 @@ def hmwOf (names : List (Nat × String)) (cs : List Char) : Option Op :=
 def opOf (names : List (Nat × String)) (tok : String) : Option (DOp × List (Nat × String)) :=
   if tok == "RUN" then some (.seq .run, names) else
   if tok == "X" then some (.seq .callerEdits, names) else
+  -- `P<ids>!` / `S<ids>!`: the (last) decorator of the call returns an error the first time it is applied; RunHandlers
+  -- reports it and is called again until it succeeds – a failed decoration commits nothing, the retry ends like a call
+  -- that never failed
+  let tok := if tok.endsWith "!" && (tok.startsWith "P" || tok.startsWith "S") then String.ofList tok.toList.dropLast else tok
   match tok.toList with
   | 'R' :: rest => (idsOf rest).map fun ids => (.seq (.routerMw ids), names)
   | 'P' :: rest => (idsOf rest).map fun ids => (.seq (.pubDec ids), names)
   | 'S' :: rest => (idsOf rest).map fun ids => (.seq (.subDec ids), names)
+  | 'T' :: rest => do
+    let h ← natOf rest
+    let (_, name) ← names.find? (·.1 == h)
+    pure (.seq (.stopHandler name), names)
   | 'G' :: rest => ((splitOnChar '+' rest).mapM popOf).map fun ps => (.seq (.plugin ps), names)
   | 'C' :: rest =>
     ((splitOnChar '|' rest).mapM fun g => (splitOnChar '+' g).mapM (hmwOf names)).map fun gs => (.conc gs, names)
@@ -276,10 +287,16 @@ def monitor (names : List (Nat × String)) (dops : List DOp) (blocks : List Stri
   let mut pending : List POp := []      -- what the plugins added so far will register when Run executes them
   let mut ran := false
   let mut started : List (String × Bool × Option Nat × List DOp) := []   -- handler, hasPub, app, what preceded its start
+  let mut stopped : List String := []
   let mut rest := blocks
   for d in dops do
     match d with
     | .seq (.plugin ps) => pending := pending ++ ps
+    | .seq (.stopHandler h) =>
+      -- only a running handler can be stopped; from now on it gets no messages and appears in no block
+      if !(started.any (·.1 == h)) then return "bad-op"
+      started := started.filter (·.1 != h)
+      stopped := stopped ++ [h]
     | .seq .run =>
       -- Run executes the plugins first (once; RunHandlers on the running router does not)
       if !ran then
@@ -289,7 +306,8 @@ def monitor (names : List (Nat × String)) (dops : List DOp) (blocks : List Stri
       -- every handler added so far and not yet started starts now, after all of `seen`
       for x in seen do
         match x with
-        | .seq (.addHandler h p a) => if !(started.any (·.1 == h)) then started := started ++ [(h, p, a, seen)]
+        | .seq (.addHandler h p a) =>
+          if !(started.any (·.1 == h)) && !stopped.contains h then started := started ++ [(h, p, a, seen)]
         | _ => pure ()
       match rest with
       | [] => return "violated:shape"
